@@ -468,6 +468,43 @@ impl HardLinkContainer {
         }
     }
 
+    /// Refuse a caller-supplied path that does not stay inside the container.
+    ///
+    /// `create_link` and `remove_file` delete and create files at the path
+    /// they are given; nothing outside `storage_path` is theirs to touch.
+    fn check_confined(&self, path: &Path) -> Result<()> {
+        let inside = path.starts_with(&self.storage_path)
+            && !path
+                .components()
+                .any(|c| matches!(c, std::path::Component::ParentDir));
+        if inside {
+            Ok(())
+        } else {
+            Err(StorageError::AccessDenied(format!(
+                "path {} is outside the hard link container {}",
+                path.display(),
+                self.storage_path.display()
+            )))
+        }
+    }
+
+    /// Bring the FD cache in line with a change made at `path` on behalf of
+    /// `ekey`: the cached answer of a key describes that key's trie path and
+    /// nothing else. A change anywhere else may concern any key, so the
+    /// cache is dropped.
+    fn note_path_changed(&self, ekey: &[u8; 9], path: &Path, exists: bool) {
+        let mut trie = self.trie.write();
+        if path == trie.path_for_key(ekey) {
+            if exists {
+                trie.fd_cache.insert(*ekey, true);
+            } else {
+                trie.invalidate(ekey);
+            }
+        } else {
+            trie.fd_cache.clear();
+        }
+    }
+
     /// Check if hard links are supported.
     pub const fn is_supported(&self) -> bool {
         self.supported
@@ -505,6 +542,7 @@ impl HardLinkContainer {
                 "zero key rejected for hard link creation".to_string(),
             ));
         }
+        self.check_confined(destination)?;
 
         // Ensure trie subdirectories exist
         if let Some(parent) = destination.parent() {
@@ -549,7 +587,7 @@ impl HardLinkContainer {
         // Update FD cache
         let mut ekey = [0u8; 9];
         ekey.copy_from_slice(&key[..9]);
-        self.trie.write().fd_cache.insert(ekey, true);
+        self.note_path_changed(&ekey, destination, true);
 
         debug!(
             "created hard link for key {}: {} -> {}",
@@ -574,10 +612,11 @@ impl HardLinkContainer {
 
         let mut ekey = [0u8; 9];
         ekey.copy_from_slice(&key[..9]);
+        self.check_confined(path)?;
 
         match std::fs::remove_file(path) {
             Ok(()) => {
-                self.trie.write().invalidate(&ekey);
+                self.note_path_changed(&ekey, path, false);
                 debug!(
                     "removed hard link file for key {}: {}",
                     hex::encode(ekey),
@@ -587,7 +626,7 @@ impl HardLinkContainer {
             }
             Err(e) if e.kind() == std::io::ErrorKind::NotFound => {
                 // Silently succeed on file-not-found
-                self.trie.write().invalidate(&ekey);
+                self.note_path_changed(&ekey, path, false);
                 Ok(())
             }
             Err(e) => Err(StorageError::Archive(format!(
